@@ -4,6 +4,8 @@ Static clauses (exact for the mechanism the property names):
   H-SER   no RandomState hash container with a derived Serialize inside an IR value the lowering can construct (its CBOR
           encoding follows iteration order)
   H-ITER  no order-dependent consumption of a hash container in the closure of parse_string / analyze / lower / to_bytes / emit_tii
+          (a map insertion in such a loop is neutral only under a key that is the whole iterated item, or the key half of a
+          map's own entries)
           (iteration that feeds an ordered result, *and* a variable assigned on some iterations and read on later ones)
   H-JSON  the TII file is written from a serde_json::Value whose maps are sorted (serde_json without `preserve_order`)
   H-FILE  the TII file is replaced as a whole (`fs::write`, `File::create`, or OpenOptions with `truncate(true)` / `create_new(true)`
